@@ -1,6 +1,14 @@
-"""C19 - see DESIGN.md section 5/C19.  Bounded stand-in (bounded/C19.py) of the property's
-contract on the real code; labelled bounded, never counted as proved."""
+"""C19 - result caching is transparent and survives interruption.
+
+Deductive part (contracts/parallel_cache.py over the abstract file system of
+pyvc/lib_fs.py): _pickle_name, _pickle_save, _pickle_load and _load_or_run are proved;
+the crash invariant (every existing result file is complete and holds the expected
+value) is an obligation after every statement and inside the model of open / dump /
+close, i.e. for a kill at any instant including mid-write.  Bounded part
+(bounded/C19.py): real kills (RLIMIT_FSIZE/SIGKILL) and reruns on the real code."""
 from props._runner import run
 
 if __name__ == "__main__":
-    run("C19", "exploration", notes="C19: run-time contract on the real code over an enumerated small scope (bounded stand-in)")
+    run("C19", "proof", files=["parallel_cache.py"],
+        notes="C19: crash invariant + functional contracts of the cache helpers proved over an abstract file system; "
+              "parallelise itself (pool, ordering) is covered by the bounded stand-in only")
